@@ -5,6 +5,7 @@
 // called on the shared objects (copy construction, serialize, get_serialization_size, num_simplices, find):
 // dimension(), filtration_simplex_range() are documented as not thread safe.
 // argv[1] = seed.  stdout: "sum <n> ... ok" or "MISMATCH".
+#include <algorithm>
 #include <cstdint>
 #include <cstdlib>
 #include <iostream>
@@ -66,6 +67,18 @@ static uint64_t tree_work(const Simplices& data, const T& shared, unsigned seed)
     T a;
     for (size_t i = 0; i < data.size(); ++i)
       if ((i + round) % 5 != 0) a.insert_simplex_and_subfaces(data[i].first, data[i].second);
+    {                                         // the same complex simplex by simplex (insert_simplex, faces first)
+      std::vector<std::pair<std::vector<typename T::Vertex_handle>, typename T::Filtration_value>> all;
+      for (auto sh : a.complex_simplex_range()) {
+        std::vector<typename T::Vertex_handle> vs;
+        for (auto v : a.simplex_vertex_range(sh)) vs.push_back(v);
+        all.emplace_back(vs, a.filtration(sh));
+      }
+      std::stable_sort(all.begin(), all.end(), [](const auto& x, const auto& y) { return x.first.size() < y.first.size(); });
+      T f;
+      for (auto& s : all) f.insert_simplex(s.first, s.second);
+      acc += 13 * tree_sum(f) + (f == a ? 1 : 0);
+    }
     T b(a);                                   // copy-construct
     T c(shared);                              // copy from the shared const tree
     T d;
